@@ -235,16 +235,18 @@ class Conv1d(nn.Conv1d):
             self.bias.data.zero_()
 
     def forward(self, input: Tensor) -> Tensor:
+        padding = self.padding
         if self.padding_mode != "zeros":
             input = F.pad(
                 input, self._reversed_padding_repeated_twice, mode=self.padding_mode
             )
+            padding = 0  # type:ignore[assignment]
         return U.conv1d(
             input,
             self.weight,
             self.bias,
             self.stride,
-            self.padding,
+            padding,
             self.dilation,
             self.groups,
             constraint=self.constraint,
